@@ -48,7 +48,7 @@ Lemma globals_are : globals = [
   ("pkg/grammar/lexer_impl.go", "syslLexerLog", "init-only");
   ("pkg/grammar/lexer_impl.go", "keywords", "init-only");
   ("pkg/grammar/lexer_impl.go", "lexerStates", "keyed-map");
-  ("pkg/parse/parse.go", "importStmtPrefix", "init-only") ].
+  ("pkg/parse/parse.go", "importKeyword", "init-only") ].
 Proof. reflexivity. Qed.
 
 (* the fields a lexer keeps in the map; noMoreImports is set by ':' and never reset (Conc/Run.v flag_step) *)
